@@ -11,12 +11,13 @@ import (
 // ---------------------------------------------------------------- generator of ballots
 
 type genState struct {
-	h       *Hist
-	w       *World
-	r       *vh.Rand
-	vpcache map[string]int
-	expsets [][]int // candidate expel sets (indices), [0] = none
-	phase   struct {
+	h            *Hist
+	w            *World
+	r            *vh.Rand
+	vpcache      map[string]int
+	expsets      [][]int // candidate expel sets (indices), [0] = none
+	forceFlavour int     // >0: flavour of the embedded voteproofs (1 = not valid for the suffrage, never forwarded)
+	phase        struct {
 		hh, rr  int64
 		kind    int
 		variant int
@@ -112,6 +113,9 @@ func (g *genState) ballot(node, pub int, hh, rr int64, kind, v int, ex []int, fu
 	flavour := 0
 	if g.r.Chance(1, 6) {
 		flavour = g.r.Range(1, 4)
+	}
+	if g.forceFlavour > 0 {
+		flavour = g.forceFlavour
 	}
 	ex = w.facts[fi].ex
 	rex := make([]base.SuffrageExpelOperation, len(ex))
@@ -280,8 +284,26 @@ func RunForced(r *vh.Rand, res *vh.Result, mode string, maxSteps int) *Hist {
 	if r.Chance(1, 3) {
 		h.doSetLast(lastP{h: w.H - 1, r: 0, stage: 1, maj: true})
 	}
+	if n >= 3 && r.Chance(1, 5) {
+		for _, x := range []int64{w.H - 2, w.H - 1, w.H} {
+			if !h.known[x] {
+				h.doLearn(x)
+			}
+		}
+		g.holdScenario(r.Chance(3, 4))
+		res.Dist("forced_hold_scenario")
+	}
+	if n >= 3 && r.Chance(1, 5) {
+		for _, x := range []int64{w.H - 2, w.H - 1, w.H} {
+			if !h.known[x] {
+				h.doLearn(x)
+			}
+		}
+		g.revoteScenario(r.Intn(5))
+		res.Dist("forced_revote_scenario")
+	}
 	g.newPhase()
-	nsteps := r.Range(maxSteps/3, maxSteps)
+	nsteps := len(h.steps) + r.Range(maxSteps/3, maxSteps)
 	for len(h.steps) < nsteps && !h.failed {
 		switch x := r.Intn(100); {
 		case x < 58:
@@ -292,6 +314,12 @@ func RunForced(r *vh.Rand, res *vh.Result, mode string, maxSteps int) *Hist {
 			node, pub := p.perm[p.next], p.perm[p.next]
 			hh, rr, kind, variant, exset := p.hh, p.rr, p.kind, p.variant, p.exset
 			p.next++
+			if p.next > 1 && r.Chance(1, 7) { // a second ballot of a node that voted already, with other expels / fact
+				node = p.perm[r.Intn(p.next-1)]
+				pub = node
+				exset = r.Intn(len(g.expsets))
+				variant = r.Intn(3)
+			}
 			switch r.Intn(20) {
 			case 0:
 				node, pub = w.n+r.Intn(2), w.n+r.Intn(2) // outsider (maybe with another outsider's key)
@@ -366,5 +394,109 @@ func (g *genState) runPending(i int) {
 		h.doCount(p.rid, g.r.Chance(1, 3), &p)
 	} else {
 		h.doForward(p)
+	}
+}
+
+// holdScenario: an INIT stage point of round 1 is drawn with pending expels (put on hold), then the box moves to a
+// point that makes the held one passed although it is higher by StagePoint.Compare (majority ACCEPT of round 0),
+// then the hold expires (countHoldeds).
+func (g *genState) holdScenario(advance bool) {
+	h, w := g.h, g.w
+	target := w.n - 1
+	var signers [][2]int
+	for j := 0; j < w.n; j++ {
+		signers = append(signers, [2]int{j, j})
+	}
+	e := w.Expel(target, w.H-1, w.H+1, signers)
+	h.doSetLast(lastP{h: w.H - 1, r: 0, stage: 1, maj: true})
+	g.forceFlavour = 1
+	for i := 0; i < w.n; i++ {
+		var bl *aBallot
+		switch {
+		case i == target:
+			bl = g.ballot(i, i, w.H, 1, kInit, 2, nil, true)
+		case i%2 == 0:
+			bl = g.ballot(i, i, w.H, 1, kInit, 0, []int{e}, true)
+		default:
+			bl = g.ballot(i, i, w.H, 1, kInit, 0, nil, true)
+		}
+		if bl == nil || !bl.valid {
+			continue
+		}
+		h.doVote(bl)
+		for len(h.pend) > 0 {
+			p := h.pend[0]
+			h.pend = h.pend[1:]
+			if p.cnt {
+				h.doCount(p.rid, false, &p)
+			} else {
+				h.doForward(p)
+			}
+		}
+	}
+	g.forceFlavour = 0
+	if advance {
+		h.doSetLast(lastP{h: w.H, r: 0, stage: 1, maj: true})
+	}
+	for _, p := range h.box.VerifUnfinished() {
+		if id, ok := h.ids[p]; ok {
+			h.doHeld(id, true)
+		}
+	}
+}
+
+// revoteScenario: node 0 votes; a second ballot of node 0 carrying an expel (expired / signed by outsiders / target not
+// a member / under-signed / valid) arrives and must be rejected without leaving a trace; then every member but the
+// expel target votes the fact of the first ballot and the record is counted.
+func (g *genState) revoteScenario(flavour int) {
+	h, w := g.h, g.w
+	target := w.n - 1
+	start, end := w.H-1, w.H+1
+	var signers [][2]int
+	for j := 0; j < w.n; j++ {
+		signers = append(signers, [2]int{j, j})
+	}
+	switch flavour {
+	case 0:
+		end = w.H - 1 // expired for height H
+	case 1:
+		signers = [][2]int{{w.n, w.n}, {w.n + 1, w.n + 1}, {0, 0}} // outsiders sign
+	case 2:
+		target = w.n // not a member
+	case 3:
+		signers = [][2]int{{0, 0}} // not enough signs
+	}
+	e := w.Expel(target, start, end, signers)
+	h.doSetLast(lastP{h: w.H - 1, r: 0, stage: 1, maj: true})
+	run := func(bl *aBallot) {
+		if bl == nil || !bl.valid {
+			return
+		}
+		h.doVote(bl)
+		for len(h.pend) > 0 {
+			p := h.pend[0]
+			h.pend = h.pend[1:]
+			if p.cnt {
+				h.doCount(p.rid, false, &p)
+			} else {
+				h.doForward(p)
+			}
+		}
+	}
+	run(g.ballot(0, 0, w.H, 0, kInit, 0, nil, true))
+	run(g.ballot(0, 0, w.H, 0, kInit, 0, []int{e}, true)) // the second ballot of node 0
+	if g.r.Bool() {
+		run(g.ballot(0, 0, w.H, 0, kInit, 1, []int{e}, true))
+	}
+	for i := 1; i < w.n; i++ {
+		if i == target {
+			continue
+		}
+		run(g.ballot(i, i, w.H, 0, kInit, 0, nil, true))
+	}
+	for _, p := range h.box.VerifUnfinished() {
+		if id, ok := h.ids[p]; ok {
+			h.doCount(id, true, nil)
+		}
 	}
 }
